@@ -84,6 +84,11 @@ class SQLRepo:
             _LOGGER.debug(emsg, path=filename)
             return None
 
+    def get_page_names(self) -> list[str]:
+        """Returns the names (i.e. relative paths) of all pages in the DB."""
+        stmt = select(sql.Page.path)
+        return list(self._session.exec(stmt).all())
+
     def get_notes_by_query(self, query: Optional[WhereOrFilter]) -> list[Note]:
         """Get note(s) from DB by using a query."""
         select_of_note = to_sql_select(query, self._session)
